@@ -31,16 +31,25 @@ SHARD = 250
 
 WINDOW, COUNT, STATE, BOTH, COUNT_STATE = 0, 1, 2, 3, 4
 KIND_NAMES = ['window', 'countByWindow', 'updateStateByKey', 'window+updateStateByKey', 'countByWindow+updateStateByKey']
-U_NAMES = ['sum', 'last', 'count', 'append', 'history', 'idle', 'decay']
+U_NAMES = ['sum', 'last', 'count', 'append', 'history', 'idle', 'decay', 'reset', 'minopt']
+def _minopt(vs, s):
+    cand = [v for v in vs if v is not None] + ([s] if s is not None else [])
+    return min(cand) if cand else None
+
+
+# values may be None; sum and decay count a None value as 0
 U = [
-    lambda vs, s: (s if s is not None else 0) + sum(vs),
-    lambda vs, s: s if not vs else vs[-1],
+    lambda vs, s: (s if s is not None else 0) + sum(v or 0 for v in vs),
+    lambda vs, s: s if not vs else vs[-1],                       # returns None when the last value is None
     lambda vs, s: (s or 0) + len(vs),
     lambda vs, s: (s or []) + vs,
     # u([], s) != s: these show whether the function is called with [] for a key that is absent in an interval
-    lambda vs, s: (s or []) + [list(vs)],          # one entry per interval since the key appeared
-    lambda vs, s: 0 if vs else (s or 0) + 1,       # intervals since the key last had data
-    lambda vs, s: sum(vs) + (s or 0) // 2,         # a sum that halves every interval
+    lambda vs, s: (s or []) + [list(vs)],                        # one entry per interval since the key appeared
+    lambda vs, s: 0 if vs else (s or 0) + 1,                     # intervals since the key last had data
+    lambda vs, s: sum(v or 0 for v in vs) + (s or 0) // 2,       # a sum that halves every interval
+    # these return None: a None state is a state, the key stays in the state RDD
+    lambda vs, s: None if not vs else (s or 0) + len(vs),        # reset to None when the key is absent
+    _minopt,                                                     # smallest non-None value so far, None while there is none
 ]
 NU = len(U)
 
@@ -49,13 +58,13 @@ RULE = ('cases (kind, w, s, update function, consumers k, queue contents, tick t
         'function x k for a 6-tick keyed history; thorough tier: every empty/singleton batch pattern and queue length over 6 ticks '
         'for every (w, s), every presence pattern of two keys over 5 intervals for every update function; random histories of up to 8 ticks (queue shorter, equal or longer than the '
         'number of ticks; batches of 0-3 elements; keys 0..3 that disappear for several intervals), w 1..4, s 1..3, '
-        'update functions sum/last/count/append/history/idle/decay (the last three change the state of an absent key), 1-3 consumers, strictly increasing tick times with gaps 1..3 and (5%) one '
+        'update functions sum/last/count/append/history/idle/decay/reset/minopt (history, idle, decay, reset change the state of an absent key; last, reset, minopt can return None), values that are None (20%), 1-3 consumers, strictly increasing tick times with gaps 1..3 and (5%) one '
         'repeated time; non-trivial = at least two ticks and a non-empty batch; distinct by canonical JSON of the case')
 ASSUMPTIONS = [
     'tick times are integral floats (the guards only compare them; modelled as Z)',
     'window/slide durations are w*d, s*d for a batch duration d in {1, 0.5, 0.1} s, which int(round(x / d)) maps back to w, s',
     'update functions are pure and total on the generated data; how often they are invoked is not compared',
-    'elements of keyed batches are (small int key, int value) pairs; the iteration order of the key set in '
+    'elements of keyed batches are (small int key, int-or-None value) pairs; the iteration order of the key set in '
     'RDD.cogroup is unspecified, so state RDDs are compared sorted by key',
     'exceptions raised inside the tick callback end that interval only (as tornado.ioloop.PeriodicCallback does)',
 ]
@@ -252,7 +261,8 @@ def _keyed_batches(rng, n):
         if out and rng.random() < 0.25:
             out.append([])                                   # a wholly empty interval after keys have appeared
         else:
-            out.append([(rng.choice(live), rng.randint(-5, 9)) for _ in range(rng.choice([0, 1, 2, 2, 3]))])
+            out.append([(rng.choice(live), None if rng.random() < 0.2 else rng.randint(-5, 9))
+                        for _ in range(rng.choice([0, 1, 2, 2, 3]))])
     return out
 
 
@@ -304,11 +314,17 @@ def generate(rng, tier):
                 cases.append((BOTH, w, s, (w + 2 * s + 3 * k) % NU, k, keyed6, [1, 2, 3, 4, 5, 6]))
     # a key that is absent for several intervals after it appeared, wholly empty intervals, a queue that runs dry
     gaps = [[(0, 3), (1, 4)], [], [], [(1, 5)], [], [], [(0, -2), (0, 6)]]
+    nones = [[(0, None), (0, 3), (1, 4), (2, None)], [(0, 1), (0, None), (0, 2), (1, 5), (1, None)], [], [(1, None)],
+             [(0, 7), (2, None)]]
     for uc in range(NU):
         for k in range(1, 4):
             cases.append((STATE, 1, 1, uc, k, keyed6, [1, 2, 3, 4, 5, 6]))
         cases.append((STATE, 1, 1, uc, 2, gaps, [1, 2, 3, 4, 5, 6, 7, 8, 9]))
         cases.append((STATE, 1, 1, uc, 1, [[(7, 1)]], [1, 2, 3, 4]))
+        # None values: first, middle, last, only element of a key's list in an interval; a key that only ever has None
+        cases.append((STATE, 1, 1, uc, 2, nones, [1, 2, 3, 4, 5, 6]))
+        cases.append((STATE, 1, 1, uc, 1, [[(0, 3), (0, None)]], [1, 2]))
+        cases.append((STATE, 1, 1, uc, 1, [[(0, None)], [], [(0, 2)]], [1, 2, 3]))
         cases.append((COUNT_STATE, 2, 2, uc, 1, gaps, [1, 2, 3, 4, 5, 6, 7, 8]))
     # queue exhausted before / after the ticks end, empty batches
     for knd in (WINDOW, COUNT):
@@ -333,7 +349,8 @@ def generate(rng, tier):
         for uc in range(NU):
             for m0 in range(32):
                 for m1 in range(32):
-                    b = [([(0, i + 1)] if m0 >> i & 1 else []) + ([(1, 10 + i), (1, -i)] if m1 >> i & 1 else [])
+                    b = [([(0, i + 1)] if m0 >> i & 1 else [])
+                         + ([(1, 10 + i), (1, None if (m0 + i) % 3 == 0 else -i)] if m1 >> i & 1 else [])
                          for i in range(5)]
                     cases.append((STATE, 1, 1, uc, 1 + (m0 + m1) % 3, b, [1, 2, 3, 4, 5, 6]))
     for _ in range(1000 if tier == 'quick' else 10000):
